@@ -208,10 +208,10 @@ func c14tcpClient(rep *vh.Report, seed uint64, idx int) {
 		}
 		waitFor(func() bool { return life.count(false) > f }, life.progress, 2*time.Second)
 	}
+	evts := life.snapshot() // once the node is closing events may be dropped: only what arrived before counts
 	node.Close()
 	ln.Close()
 	<-life.done
-	evts := life.snapshot()
 	checkAlternation(rep, "tcp-client", evts)
 	// every close carries a cause
 	ci := 0
@@ -300,9 +300,10 @@ func c14serial(rep *vh.Report, seed uint64, idx int) {
 		waitFor(func() bool { return life.count(false) > f }, life.progress, 2*time.Second)
 	}
 	waitFor(func() bool { return life.count(true) > nFail }, life.progress, 2*time.Second)
+	evts := life.snapshot()
+	opensBeforeClose := life.count(true)
 	node.Close()
 	<-life.done
-	evts := life.snapshot()
 	checkAlternation(rep, "serial", evts)
 	ci := 0
 	for _, e := range evts {
@@ -316,8 +317,8 @@ func c14serial(rep *vh.Report, seed uint64, idx int) {
 		}
 		ci++
 	}
-	if life.count(true) <= nFail {
-		rep.Violation("ep=serial what=no-reconnect", fmt.Sprintf("%d failures but only %d channels were opened", nFail, life.count(true)), nil)
+	if opensBeforeClose <= nFail {
+		rep.Violation("ep=serial what=no-reconnect", fmt.Sprintf("%d failures but only %d channels were opened", nFail, opensBeforeClose), nil)
 	}
 	// every port closed exactly once, and before the next one was opened
 	_, ports := sf.snapshot()
@@ -378,9 +379,9 @@ func c14custom(rep *vh.Report, seed uint64, idx int) {
 		tr.FeedError(c)
 		waitFor(func() bool { return life.count(false) > f }, life.progress, time.Second)
 	}
+	evts := life.snapshot()
 	node.Close()
 	<-life.done
-	evts := life.snapshot()
 	checkAlternation(rep, "custom", evts)
 	ci := 0
 	for _, e := range evts {
